@@ -50,9 +50,11 @@ def gen_case(rng, fam=None):
         srcs = merge.gen_sources(rng, rng.randint(2, 4), bsz, max_msgs=9, allow_degenerate=False,
                                  first_line_max=bsz // 2)
     else:
+        # (notations incl. pairs where one is the other plus a zone -- 6 and 4-without-prefix -- so that what one worker
+        # learns about a notation must not leak into how another worker reads its file)
         srcs = merge.gen_sources(rng, rng.randint(1, 6), bsz, max_msgs=12,
                                  containers=("plain", "plain", "gz", "bz2", "xz", "lz4"),
-                                 first_line_max=bsz // 2)
+                                 first_line_max=bsz // 2, notations=merge.NOTATIONS_WIDE + (4, 6, 6, 4, 7))
     # unique paths
     seen = set()
     for k, s in enumerate(srcs):
